@@ -136,6 +136,10 @@ OPERATOR_CHARS = frozenset(
 # Captures: (1) indent, (2) full fence+info, (3) the backtick sequence, (4) info tag
 FENCE_PATTERN = re.compile(r"^( *)((`{3,})([^\n`]*)?)$")
 
+# Escape sequences of quoted strings (what the emitter writes): \" \\ \n \t
+_UNESCAPE_MAP = {'"': '"', "\\": "\\", "n": "\n", "t": "\t"}
+_UNESCAPE_PATTERN = re.compile(r'\\(["\\nt])')
+
 # Detects inline fence syntax: KEY::```info_tag (fence on same line as key)
 # This is invalid OCTAVE -- the fence must start on the line AFTER the key
 _INLINE_FENCE_PATTERN = re.compile(r"^.*::(`{3,})")
@@ -889,11 +893,10 @@ def tokenize(content: str, lenient: bool = False) -> tuple[list[Token], list[Any
                     else:
                         # Single-quoted string: remove " from both ends
                         value = matched_text[1:-1]
-                    # Process escape sequences
-                    value = value.replace(r"\"", '"')
-                    value = value.replace(r"\\", "\\")
-                    value = value.replace(r"\n", "\n")
-                    value = value.replace(r"\t", "\t")
+                    # Process escape sequences in ONE left-to-right pass, so that the
+                    # backslash produced by an escaped backslash is never re-read as the
+                    # start of another escape (the body \\n is backslash + n, not a newline)
+                    value = _UNESCAPE_PATTERN.sub(lambda m: _UNESCAPE_MAP[m.group(1)], value)
                 elif token_type == TokenType.NUMBER:
                     # Convert to int or float, but preserve raw lexeme for fidelity (GH#66)
                     if "." in matched_text or "e" in matched_text.lower():
